@@ -68,7 +68,11 @@ def topoOfJson (j : Json) : Except String Topo := do
     | .null => pure none
     | v => (ratOfJson v).map some
   pure { combRule := comb,
-         genPairsYes := ← (← j.getObjVal? "gen_pairs_yes").getBool?,
+         genPairsYes := ← (match j.getObjVal? "gen_pairs" with
+           -- the VALUE of defaults["gen-pairs"]: compared with the translated keyword by the model
+           | .ok (.str v) => pure (genPairsFlag (some v))
+           | .ok .null => pure (genPairsFlag none)
+           | _ => do (← j.getObjVal? "gen_pairs_yes").getBool?),
          defines := ← listOf defOfJson (← j.getObjVal? "defines"),
          atomTypes := ← listOf atomTypeOfJson (← j.getObjVal? "atomtypes"),
          nonbond := ← listOf nbOfJson (← j.getObjVal? "nonbond"),
@@ -95,6 +99,22 @@ def nbToJson (e : NbEntry) : Json :=
     | none => Json.null
   Json.arr #[Json.str e.a, Json.str e.b, Json.str src, f, vals]
 
+def valToJson (v : Val) : Json :=
+  match v with
+  | .exact q => Json.mkObj [("k", Json.str "exact"), ("q", ratToJson q)]
+  | .root d r => Json.mkObj [("k", Json.str "root"), ("deg", toJson d), ("rad", ratToJson r)]
+  | .complex => Json.mkObj [("k", Json.str "complex")]
+
+def srcToJson (s : Src) : Json × Json :=
+  match s with
+  | .explicit f => (Json.str "explicit", toJson f)
+  | .self => (Json.str "self", Json.null)
+  | .generated => (Json.str "generated", Json.null)
+
+def nbvToJson (e : NbV) : Json :=
+  let (src, f) := srcToJson e.src
+  Json.arr #[Json.str e.a, Json.str e.b, src, f, valToJson e.nb1, valToJson e.nb2]
+
 def optKeyToJson (k : Option Key) : Json := match k with | some k => strsToJson k | none => Json.null
 
 def handle (j : Json) : Except String Json := do
@@ -102,12 +122,41 @@ def handle (j : Json) : Except String Json := do
   match op with
   | "preprocess" =>
     let tp ← topoOfJson j
-    match preprocess Tables.Top.patterns Tables.Top.combFuncs tp with
+    match preprocessV Tables.Top.patterns Tables.Top.combFuncs tp with
     | .error e => pure (errJson e)
-    | .ok r =>
+    | .ok rv =>
+      let r := rv.base
       pure (okJson [("instances", Json.arr (r.instances.map (fun (nm, s) => Json.arr #[Json.str nm, sectionsToJson s])).toArray),
                     ("nonbond", Json.arr (r.nonbond.map nbToJson).toArray),
-                    ("converted", Json.bool r.converted)])
+                    ("converted", Json.bool r.converted),
+                    ("pairs", Json.arr (rv.pairs.map nbvToJson).toArray),
+                    ("final", Json.arr (rv.final.map nbvToJson).toArray)])
+  | "convert" =>
+    -- model of the loop body of convert_nonbond_to_sig_eps on one entry
+    let nb1 ← ratOfJson (← j.getObjVal? "nb1")
+    let nb2 ← ratOfJson (← j.getObjVal? "nb2")
+    match convertEntry nb1 nb2 with
+    | .error e => pure (errJson e)
+    | .ok (sig, eps) => pure (okJson [("sig", valToJson sig), ("eps", valToJson (.exact eps))])
+  | "combrule" =>
+    -- model of lorentz_berthelot_rule / geometric_rule, selected by the function's NAME, and of the function
+    -- the translated comb_funcs table selects for a rule number
+    let a ← ratOfJson (← j.getObjVal? "a")
+    let b ← ratOfJson (← j.getObjVal? "b")
+    let c ← ratOfJson (← j.getObjVal? "c")
+    let d ← ratOfJson (← j.getObjVal? "d")
+    let f ← match j.getObjVal? "func" with
+      | .ok v => do
+        let nm ← v.getStr?
+        match combFnByName nm with
+        | some f => pure f
+        | none => throw s!"unmodelled combination function {nm}"
+      | .error _ => do
+        match combFnFor Tables.Top.combFuncs (← ratOfJson (← j.getObjVal? "rule")) with
+        | .ok f => pure f
+        | .error e => throw e
+    let (x, y) := f.apply a b c d
+    pure (okJson [("nb1", valToJson x), ("nb2", valToJson y)])
   | "matchdih" =>
     -- model of match_dihedral_interaction_types + the specification's answer
     let atoms ← strList (← j.getObjVal? "atoms")
